@@ -196,7 +196,7 @@ class P(Property):
             'static table by name+value, by name only (incl. values of other rows), near-miss names, and not at all, every one of the '
             '99 rows alone; the bytes written by the implementation are decoded by the extracted RFC 9204 reference decoder and must '
             'give the input list. q.dec: every octet string of length 0..2 after each of the prefixes "", 00, 0000, 0000d1, 000051, 000027 '
-            '(quick; length 3 in thorough), valid encodings produced by an independent python encoder (raw/Huffman strings, N bits, '
+            '(quick); in thorough every string of length 3 after 0000 and of length 2 after 00xx as q.blk digests over 256 inputs per line, valid encodings produced by an independent python encoder (raw/Huffman strings, N bits, '
             'non-minimal integers, Delta Base values) and their grammar-directed single-point mutations (Required Insert Count, S bit, '
             'T bit, pattern bits, static index 98/99/100, bit flips, truncation, insertion, deletion, trailing octets), integers with '
             '8..11 continuation octets, Huffman payloads with 0..40 bits of one-padding, seeded random strings, finite limits around '
@@ -206,7 +206,8 @@ class P(Property):
     trusted_extra = [
         'coq/Spec/RFC9204Static.v: the 99 rows of RFC 9204 Appendix A transcribed by hand from the RFC (proved equal to h3\'s rows)',
         'lib/props/c11.py: python encoder used only to BUILD valid and mutated inputs; verdicts come from the extracted reference decoder',
-        'C15 Huffman lemmas not yet proved are explicit premises of the _partial theorems (see partial_note)',
+        'implementation limits the RFC allows are not part of the grammar: integers with more than 9 continuation octets and Huffman '
+        'string literals of 2^29-1 octets or more are refused by h3 although RFC-valid (the oracle marks the former ^limit)',
     ]
 
     def __init__(self):
@@ -254,6 +255,14 @@ class P(Property):
                 out.append('q.dec - %s%02x' % (p, a))
             for a in range(65536):
                 out.append('q.dec - %s%04x' % (p, a))
+        for pfx in ('0000', '000051', '0000d1', '00002a', '000081'):
+            out.append('q.blk %s 1' % pfx)
+        if not quick:
+            # every octet string of length 3 after the 2-octet prefix (16.7 M inputs, digest over 256 inputs per line)
+            for a in range(65536):
+                out.append('q.blk 0000%04x 1' % a)
+            for a in range(256):
+                out.append('q.blk 00%02x 2' % a)          # and of length 2 after every first prefix octet pair 00 xx
         # the whole first-octet space of a field line followed by a plausible tail
         for a in range(256):
             for tail in ('', '00', '01 61', '8161', '0161 0162', 'ff00', 'ff24', 'ff25'):
@@ -380,6 +389,9 @@ class P(Property):
         if spec is None:
             return True
         out = self.canon(case, out)
+        if case.startswith('q.blk'):
+            a, b = out.split(), spec.split()
+            return len(a) == 3 and len(b) == 4 and a[:3] == b[:3]
         if case.startswith('q.enc'):
             a, b = out.split(), spec.split()
             # the bytes themselves are judged by the reference decoder (driver for the model, extra_checks for the implementation)
@@ -410,7 +422,11 @@ class P(Property):
         # 2. known finding F15b propagated through string literals
         n = 0
         for c, i, m, s in ctx['rows']:
-            if s is not None and i.startswith('ok') and self.known_class_hit(c, i, s):
+            if s is not None and c.startswith('q.blk'):
+                mm = re.search(r'kf=(\d+)', s)
+                if mm and self.kf is not None:
+                    n += int(mm.group(1))
+            elif s is not None and i.startswith('ok') and self.known_class_hit(c, i, s):
                 n += 1
         if n and self.kf is not None:
             print('KNOWN-FINDING: property=C11 %s (%d inputs of the class in this run)' % (self.kf['what_fails'], n))
@@ -420,6 +436,8 @@ class P(Property):
         w = case.split()
         if w[0] == 'q.enc':
             return None if w[1] == '-' else case
+        if w[0] == 'q.blk':
+            return case
         h = w[2].replace('.', '')
         if len(h) < 6 or h[:2] != '00' or int(h[2:4], 16) >= 0x7f:
             return None
@@ -427,6 +445,11 @@ class P(Property):
 
     def shrink_candidates(self, case):
         w = case.split()
+        if w[0] == 'q.blk':
+            n = int(w[2])
+            if n == 1:
+                return ['q.dec - %s%02x' % (w[1], a) for a in range(256)]
+            return ['q.blk %s%02x %d' % (w[1], a, n - 1) for a in range(256)]
         if w[0] == 'q.dec' and w[2] != '-' and len(w[2]) > 2:
             h = w[2]
             c = ['q.dec %s %s' % (w[1], h[:-2])]
